@@ -186,7 +186,7 @@ fn c08_q_tilemap_raster_tile1x1() {
     tilemap_raster::<1>();
 }
 #[kani::proof]
-#[kani::unwind(5)]
+#[kani::unwind(8)]
 #[kani::stub(alloc::fmt::format, crate::vklib::empty_format)]
 #[kani::stub(crate::file::blend_mode_to_blend_fn, crate::vklib::uf_blend_fn)]
 fn c08_t_tilemap_raster_tile2x1() {
